@@ -184,7 +184,21 @@ class Runner:
         before = dict(model.calls)
         known_before = set(self.known[s][which])
         fn = getattr(sysm, method)
-        got = fn(st)
+        from mici.errors import LinAlgError as _MiciLinAlgError
+
+        try:
+            got = fn(st)
+        except (ValueError, ArithmeticError, _MiciLinAlgError) as e:  # incl. numpy / mici LinAlgError: a user function value outside the
+            # domain where the method is defined (e.g. an exponential constraint overflowing far from its manifold).
+            # Transparency then means: evaluation from scratch fails in the same way.
+            try:
+                getattr(sysm, method)(self.fresh_state(st))
+            except type(e):
+                self.obs.count("calls_raising_with_and_without_cache")
+                return
+            self.obs.violation(f"exception-only-with-cache:{type(e).__name__}:{type(sysm).__name__}.{method}",
+                               f"{method} raised {e!r} on state {s} but evaluates from scratch on the same variable values; history: {self.trace}")
+            return
         evaluated = {k: model.calls[k] - before.get(k, 0) for k in model.calls if model.calls[k] - before.get(k, 0)}
         self.obs.count("calls_executed")
         if self.monitor == "c18":
@@ -308,7 +322,20 @@ class Runner:
         ref = self.fresh_state(st)
         before = dict(model.calls)
         known_before = set(self.known[s][0])
-        getattr(model.system, which_flow)(st, t)
+        from mici.errors import LinAlgError as _MiciLinAlgError
+
+        try:
+            getattr(model.system, which_flow)(st, t)
+        except (ValueError, ArithmeticError, _MiciLinAlgError) as e:
+            # outside the domain of a user function (see op_call): consistent iff the fresh state fails in the same way
+            try:
+                getattr(model.system, which_flow)(ref, t)
+            except type(e):
+                self.obs.count("calls_raising_with_and_without_cache")
+                return
+            self.obs.violation(f"exception-only-with-cache:{type(e).__name__}:{type(model.system).__name__}.{which_flow}",
+                               f"{which_flow} raised {e!r} on state {s} but not on a fresh state with the same variables; history: {self.trace}")
+            return
         evaluated = {k: model.calls[k] - before.get(k, 0) for k in model.calls if model.calls[k] - before.get(k, 0)}
         if self.monitor == "c18":
             self.judge_economy(s, 0, which_flow, evaluated, known_before)
